@@ -25,6 +25,8 @@ func raceRelevant(a symex.AccessRec) bool {
 		return true
 	case strings.Contains(t, "/protocol.vpTransport.out"), strings.Contains(t, "/transport.vpWriter"):
 		return true // stands for the client connection's single-writer contract (gorilla/websocket, hijacked conn)
+	case strings.HasPrefix(t, "bufio.Writer"), strings.HasPrefix(t, "bufio.Reader"):
+		return true // not safe for concurrent use (documented): whoever shares one between goroutines has to lock
 	case strings.Contains(t, ".vpLibShared"):
 		return true // a harness's stand-in for state inside a library value that repository code shares between threads
 	case strings.HasPrefix(a.Tag, "global:") && strings.Contains(a.Tag, "/protocol.") && !strings.Contains(a.Tag, ".vp"):
